@@ -61,6 +61,8 @@ structure Obs where
   body : Bytes
   headers : List (Bytes × Bytes)
   contacts : Nat
+  /-- Range header seen by the origin, per contact -/
+  contactRanges : List Bytes := []
   deriving Repr
 
 def pObs : P Obs := do
@@ -69,8 +71,8 @@ def pObs : P Obs := do
   let b ← pBytes
   let hs ← pList pPair
   let nc ← pNat
-  let _ ← pTimes (do let _ ← pBytes; let _ ← pBytes; let _ ← pBytes; pure ()) nc
-  pure { status := st, framing := fr, body := b, headers := hs, contacts := nc }
+  let rs ← pTimes (do let _ ← pBytes; let _ ← pBytes; let r ← pBytes; pure r) nc
+  pure { status := st, framing := fr, body := b, headers := hs, contacts := nc, contactRanges := rs }
 
 def hdrOf (wire : List (Bytes × Bytes)) : Header := wire.foldl (fun h kv => Header.add h kv.1 kv.2) []
 def valuesCI (h : List (Bytes × Bytes)) (name : Bytes) : List Bytes :=
@@ -122,7 +124,9 @@ def judge (force : Nat) (st : St) (method path : Bytes) (hs : List (Bytes × Byt
   let key := keyOf method path hs
   let reqAuth := (valuesCI hs b!"authorization").any (· ≠ [])
   let reqOrigin := (valuesCI hs b!"origin") ≠ []
-  let conditional := (valuesCI hs b!"if-none-match") ≠ []
+  -- a Range request is judged by C15's own streams; here only: the origin is asked for the whole
+  let ranged := (valuesCI hs b!"range") ≠ []
+  let conditional := (valuesCI hs b!"if-none-match") ≠ [] || ranged
   let cacheMethod := method == b!"GET" || method == b!"HEAD"
   -- the exchange's own fetch, if the origin was contacted
   let st1 : St :=
@@ -136,6 +140,8 @@ def judge (force : Nat) (st : St) (method path : Bytes) (hs : List (Bytes × Byt
     if o.body ≠ [] then (st.all.filter (·.path == path)).reverse.find? (·.body == o.body) else none
   let add (s : St) (b : List String) (c : List String) (l : String) : St :=
     { s with bad := s.bad ++ b, cls := s.cls ++ c, labels := s.labels ++ [l] }
+  let st1 := if ranged ∧ cacheMethod ∧ !reqAuth ∧ o.contactRanges.any (· ≠ []) then
+      add st1 ["bad:C15:range-forwarded-to-the-origin-on-a-cache-enabled-rule"] [] "range-forwarded" else st1
   match cur? with
   | none => add st1 [] [] "no-origin"
   | some c =>
@@ -143,7 +149,7 @@ def judge (force : Nat) (st : St) (method path : Bytes) (hs : List (Bytes × Byt
     -- C13: whoever is served WITHOUT contacting the origin must never get a strict prefix of a body
     let isStrictPrefix := o.body ≠ [] && (st.all.filter (·.path == path)).any (fun x => o.body.length < x.body.length && x.body.take o.body.length == o.body) &&
       !(st.all.filter (·.path == path)).any (·.body == o.body)
-    if o.contacts == 0 ∧ isStrictPrefix then
+    if o.contacts == 0 ∧ isStrictPrefix ∧ !ranged then
       add st1 ["bad:C13:partial-data-of-a-failed-fetch-served-from-the-cache", "bad:C05:truncated-body-served"] [] "hit:truncated" else
     if o.contacts > 0 ∧ c.readErrAt.isSome then
       -- the failing fetch itself: its own client may see a broken response (judged in the schedule
@@ -189,14 +195,14 @@ def judge (force : Nat) (st : St) (method path : Bytes) (hs : List (Bytes × Byt
 /-- the converse of C08: while the entry for this key is fresh, the origin is not contacted -/
 def converse (force : Nat) (st : St) (method path : Bytes) (hs : List (Bytes × Bytes)) (o : Obs) : List String :=
   let key := keyOf method path hs
-  let conditional := (valuesCI hs b!"if-none-match") ≠ []
+  let conditional := (valuesCI hs b!"if-none-match") ≠ [] || (valuesCI hs b!"range") ≠ []
   let reqOrigin := (valuesCI hs b!"origin") ≠ []
   if o.contacts == 0 ∨ conditional ∨ reqOrigin then [] else
   match (st.fetches.filter (·.key == key)).getLast? with
   | none => []
   | some f =>
     let stored := Spec.C08.storedOf (hdrOf (if 400 ≤ f.origin.status ∧ f.origin.status ≤ 404 then [(b!"Cache-Control", Spec.cacheable4xxCacheControl)] else f.origin.headers)) f.time 0
-    let storable := cacheableExchange f && !f.reqOrigin && inGate f.origin.status &&
+    let storable := cacheableExchange f && !f.reqOrigin && inGate f.origin.status && f.origin.readErrAt.isNone &&
       (f.origin.body ≠ [] || f.method == b!"HEAD" || f.origin.status ≠ 200) &&
       Spec.C07.goodHeader (hdrOf f.origin.headers) &&
       !(Spec.C10.inClass_C10_a (hdrOf f.origin.headers) || Spec.C10.inClass_C10_b (hdrOf f.origin.headers))
